@@ -37,6 +37,7 @@ def run(c):
     ]
     c.notes += ["go/parser, go/types and gogrep deliver the captured text (trusted)"]
 
+    c.go2coq_sources = []   # main.go + leaf.go + c15.go only
     c.build_theories()
     c.require_theories("Base/*.v", "Engine/TruncateSpec.v")
 
